@@ -28,6 +28,7 @@ type SetCase struct {
 	Hold     int          `json:"hold"`
 	Gate     string       `json:"gate,omitempty"` // task that is answered only once every catch event listens
 	NCatch   int          `json:"ncatch,omitempty"`
+	Nested   int          `json:"nested,omitempty"` // number of processes whose body lies inside an embedded sub-process
 	Tags     []string     `json:"tags,omitempty"`
 	Vars     map[string]any `json:"vars,omitempty"`
 	env      *Env
@@ -379,6 +380,28 @@ func genC18(d *Draw) Case {
 	}
 	c.Desc = strings.Join(desc, "; ") + fmt.Sprintf("; waits=%d conc=%v", c.Waits, c.WaitConc)
 	c.Picks = drawPicks(d, 24)
+	if d.N(4) == 3 {
+		// the bodies of the processes (throw events, catch events that message flows aim at, activities) lie
+		// inside an embedded sub-process; start events that a message flow instantiates stay where they are
+		target := map[string]bool{}
+		for _, mf := range defs.MsgFlows {
+			target[mf[1]] = true
+		}
+		n := 0
+		for _, g := range defs.Procs {
+			if target[g.ID+"_Start"] {
+				continue
+			}
+			if nestBodyBetween(defs, g, g.ID+"_Start", g.ID+"_End", 1+d.N(2)) {
+				n++
+			}
+		}
+		if n > 0 {
+			c.Tags = append(c.Tags, "bodies-in-subprocess")
+			c.Desc += fmt.Sprintf("; %d process bodies nested in sub-processes", n)
+			c.Nested = n
+		}
+	}
 	return c
 }
 
@@ -422,7 +445,7 @@ func checkC18(cc Case, r *simrt.Result) *Outcome {
 				handled[mf[0]]++
 				tp := procOf(mf[1])
 				g := graph(tp)
-				tn := g.Node(mf[1])
+				tn, _ := g.FindNode(mf[1])
 				if tn.Kind == "start" {
 					key := fmt.Sprintf("%s#%d", tp, handled[mf[0]])
 					m := NewModel(g, nil)
@@ -566,6 +589,8 @@ func checkC18(cc Case, r *simrt.Result) *Outcome {
 	}
 	probe(o, "process-finishes-at-once", trivial)
 	probe(o, "message-flow", len(c.Defs.MsgFlows) > 0)
+	probe(o, "process-bodies-inside-sub-processes", c.Nested > 0)
+	probe(o, "message-flow-with-bodies-inside-sub-processes", c.Nested > 0 && len(c.Defs.MsgFlows) > 0)
 	probe(o, "throw-burst", hasTag(c.Tags, "throw-burst"))
 	probe(o, "two-throws-one-catch", hasTag(c.Tags, "two-throws-one-catch"))
 	probe(o, "repeated-or-concurrent-waits", c.Waits > 1)
